@@ -23,7 +23,7 @@ def log(*a):
 
 
 def run(cmd, cwd=None, env=None, inp=None, timeout=None, check=False):
-    p = subprocess.run(cmd, cwd=cwd, env=env, input=inp, capture_output=True, text=True, timeout=timeout)
+    p = subprocess.run(cmd, cwd=cwd, env=env, input=inp, capture_output=True, text=True, errors="replace", timeout=timeout)
     if check and p.returncode != 0:
         raise RuntimeError("command failed: %s\n%s\n%s" % (cmd, p.stdout[-4000:], p.stderr[-4000:]))
     return p
@@ -242,7 +242,7 @@ def exec_impl(driver, ops_text, extra_env=None, timeout=600):
         if extra_env:
             env.update(extra_env)
         try:
-            p = subprocess.run([driver, "-mode", "exec"], input=ops_text, capture_output=True, text=True, env=env, timeout=timeout)
+            p = subprocess.run([driver, "-mode", "exec"], input=ops_text, capture_output=True, text=True, errors="replace", env=env, timeout=timeout)
         except subprocess.TimeoutExpired as e:
             out = e.stdout or ""
             if isinstance(out, bytes):
@@ -292,7 +292,7 @@ def race_reports(stderr):
 
 
 def exec_model(component, ops_text, timeout=1200):
-    p = subprocess.run([MODEL, component], input=ops_text, capture_output=True, text=True, timeout=timeout)
+    p = subprocess.run([MODEL, component], input=ops_text, capture_output=True, text=True, errors="replace", timeout=timeout)
     if p.returncode != 0:
         raise RuntimeError("model driver failed: " + p.stderr[-1000:])
     return p.stdout.splitlines()
@@ -355,9 +355,17 @@ def compare(cases, impl_lines, model_lines, oracle_lines):
     return res
 
 
-def run_cases(driver, component, cases, with_model=True, extra_env=None):
+def crash_summary(stderr_tail):
+    """the line that says why the process died, and the first frame inside gnet"""
+    lines = stderr_tail.splitlines()
+    why = next((l.strip() for l in lines if l.startswith(("panic:", "fatal error:", "runtime: goroutine stack exceeds"))), "")
+    frame = next((l.strip() for l in lines if "github.com/panjf2000/gnet/v2" in l and "(" in l), "")
+    return (why + (" at " + frame if frame else "") or stderr_tail.strip()[-200:])[:300]
+
+
+def _evaluate(component, cases, impl, oracle, with_model):
+    """model run + comparison for cases whose implementation replies are complete"""
     text = join_cases(cases)
-    impl, oracle, crash = exec_impl(driver, text, extra_env)
     # a reply may carry what the environment decided (pool hit or miss, ...) after " @@ ":
     # that part is an INPUT of the model (appended to the op), not an output to compare
     if any(" @@" in l for l in impl):
@@ -376,8 +384,42 @@ def run_cases(driver, component, cases, with_model=True, extra_env=None):
                 out.append(l)
         text = "\n".join(out) + "\n"
     model = exec_model(component, text) if with_model else None
-    res = compare(cases, impl, model, oracle)
-    return res, crash
+    return compare(cases, impl, model, oracle)
+
+
+def run_cases(driver, component, cases, with_model=True, extra_env=None):
+    """runs the cases on the implementation (one process) and on the model. When the implementation kills the
+    process in the middle of the batch, the cases answered so far are evaluated, the crashing case is run alone
+    (and gets an oracle failure: a crash on this very input), and the rest is run as a new batch."""
+    res, crashes, remaining, splits = [], [], list(cases), 0
+    while remaining:
+        impl, oracle, crash = exec_impl(driver, join_cases(remaining), extra_env)
+        if not crash or len(remaining) == 1 or splits >= 12:
+            r = _evaluate(component, remaining, impl, oracle, with_model)
+            if crash:
+                crashes.append(crash)
+                if len(remaining) == 1 and "did not finish" not in crash:
+                    # a panic or a fatal error of the implementation on this very input is a failing input
+                    r[0].oracle.append((max(len(r[0].impl), 1),
+                                        "the implementation crashed the process on this input: " + crash_summary(crash)))
+            res += r
+            break
+        splits += 1
+        pos, done = 0, 0
+        for cid, ops in remaining:
+            if pos + len(ops) + 1 <= len(impl):
+                pos += len(ops) + 1
+                done += 1
+            else:
+                break
+        done = min(done, len(remaining) - 1)
+        if done:
+            res += _evaluate(component, remaining[:done], impl[:pos], oracle, with_model)
+        r1, c1 = run_cases(driver, component, remaining[done:done + 1], with_model, extra_env)
+        res += r1
+        crashes.append(c1 or crash)
+        remaining = remaining[done + 1:]
+    return res, "\n".join(c for c in crashes if c)
 
 
 MINIMISE_DEADLINE = [None]   # absolute time after which no further minimisation is attempted in this run
